@@ -27,6 +27,9 @@ type Check struct {
 	SelfTest func() error
 	// Run performs all explorations of this check for one shard.
 	Run func(c *Ctx)
+	// ReplayInput, if set, runs the check's driver on one given input (used to
+	// confirm and replay crashes, which have no recorded choice sequence).
+	ReplayInput func(x *X, in []byte)
 }
 
 // Registry maps property ids to checks.
@@ -76,6 +79,7 @@ type Result struct {
 	Shard          int              `json:"shard"`
 	Explorations   []ExplResult     `json:"explorations"`
 	Counters       map[string]int64 `json:"counters"`
+	Maxima         map[string]int64 `json:"maxima,omitempty"`
 	Violations     []Violation      `json:"violations"`
 	ViolationCount int64            `json:"violation_count"`
 	KnownHits      map[string]int64 `json:"known_hits"`
@@ -106,9 +110,13 @@ type Ctx struct {
 	Replay   *ReplaySpec
 	Record   bool // development: record every failing case key (known or not)
 	VerifDir string
-	Res      Result
-	outcomes map[uint64]struct{}
-	maxNew   int
+	// InflightPath, if set, receives the input of the execution in progress
+	// (so that a crash of the worker can be attributed to an input).
+	InflightPath string
+	inflight     *os.File
+	Res          Result
+	outcomes     map[uint64]struct{}
+	maxNew       int
 }
 
 const outcomeCap = 1 << 18
@@ -145,6 +153,46 @@ type fail struct {
 // Fail records a violation of the property on this execution.
 func (x *X) Fail(kind, cfg string, input []byte, format string, args ...any) {
 	x.fails = append(x.fails, fail{kind: kind, cfg: cfg, msg: fmt.Sprintf(format, args...), input: append([]byte(nil), input...)})
+}
+
+// Max records a named maximum.
+func (x *X) Max(name string, v int64) {
+	if x.c.Res.Maxima == nil {
+		x.c.Res.Maxima = map[string]int64{}
+	}
+	if v > x.c.Res.Maxima[name] {
+		x.c.Res.Maxima[name] = v
+	}
+}
+
+// InFlight publishes the input of the running execution for crash attribution.
+func (x *X) InFlight(exploration string, in []byte) {
+	c := x.c
+	if c.InflightPath == "" {
+		return
+	}
+	if c.inflight == nil {
+		f, err := os.OpenFile(c.InflightPath, os.O_CREATE|os.O_WRONLY|os.O_TRUNC, 0o644)
+		if err != nil {
+			return
+		}
+		c.inflight = f
+	}
+	rec := make([]byte, 0, len(in)*2+len(exploration)+16)
+	rec = append(rec, exploration...)
+	rec = append(rec, ' ')
+	rec = append(rec, hex.EncodeToString(in)...)
+	rec = append(rec, '\n')
+	c.inflight.WriteAt(rec, 0)
+	c.inflight.Truncate(int64(len(rec)))
+}
+
+// CrashInfo describes a worker that died (fatal error, kill) instead of reporting.
+type CrashInfo struct {
+	Worker   int
+	Err      string
+	Stderr   string
+	Inflight []byte
 }
 
 // Count increments a named reach counter.
@@ -351,6 +399,23 @@ func fnv(s string) uint64 {
 	return h
 }
 
+// RunOne runs ReplayInput on one input and returns the failures it recorded.
+func (c *Ctx) RunOne(in []byte) []Violation {
+	if c.Res.Counters == nil {
+		c.Res.Counters = map[string]int64{}
+	}
+	var out []Violation
+	e := mc.Run(func(e *mc.Exec) {
+		x := &X{Exec: e, c: c}
+		c.Check.ReplayInput(x, in)
+		for _, f := range x.fails {
+			out = append(out, c.mkViolation("one", f, nil))
+		}
+	}, nil)
+	_ = e
+	return out
+}
+
 // Finish moves the outcome set into the result.
 func (c *Ctx) Finish() {
 	for o := range c.outcomes {
@@ -457,6 +522,9 @@ func (c *Ctx) Families(maxK int, f func(x *X, in []byte)) {
 	c.Explore("families", fmt.Sprintf("parametric families (DESIGN.md 4.4): %d families x k=1..%d, each member once", len(fams), maxK), -1, maxK, func(x *X) {
 		fi := x.ChooseFree(len(fams))
 		k := x.ChooseFree(maxK) + 1
+		if fams[fi].MaxK > 0 && k > fams[fi].MaxK {
+			return
+		}
 		f(x, fams[fi].Gen(k))
 	})
 }
